@@ -136,7 +136,7 @@ func checkStream(c *mon.C, shapes []gen.Shape, side ref.Side, nplans int) bool {
 			}
 			o.MaxFrameSize += int64(c.I % 2)
 		}
-		stream, _, marks := gen.Encode(frames)
+		stream, starts, marks := gen.Encode(frames)
 		want := drive.Expect(frames, o)
 		ps := xport.Plans(c.Rng.Int63(), marks)
 		for pi := 0; pi < nplans; pi++ {
@@ -162,9 +162,17 @@ func checkStream(c *mon.C, shapes []gen.Shape, side ref.Side, nplans int) bool {
 					prelude = (c.I*7 + ei*3 + pi) % 24
 					drive.Prelude(prelude)
 				}
-				obs := drive.Run(ch, o)
+				var src io.Reader = ch
+				o.Retry = false
+				if o.Entry == "reader" && bi == 0 && pi == 0 && o.Intermediate == 0 && o.Discard == nil && len(starts) > 0 {
+					// a deadline-driven read loop: one read of the transport times out (nothing consumed) in front of a
+					// frame header, the consumer calls again - the events are the same
+					o.Retry = true
+					src = &xport.Transient{R: ch, At: starts[(c.I+ei)%len(starts)], Err: xport.ErrTimeout}
+				}
+				obs := drive.Run(src, o)
 				det := func() map[string]interface{} {
-					return map[string]interface{}{"frames": gen.ShapesKey(shapes), "side": side, "entry": entry, "plan": plan.String(), "buf": o.Buf, "source": o.Wrap, "prelude_connection_kind": prelude,
+					return map[string]interface{}{"frames": gen.ShapesKey(shapes), "side": side, "entry": entry, "plan": plan.String(), "buf": o.Buf, "source": o.Wrap, "prelude_connection_kind": prelude, "timeout_then_retry": o.Retry,
 						"discard": fmt.Sprint(o.Discard), "got": tail(drive.EventStrings(obs.Events)), "want": tail(drive.EventStrings(want)), "err": fmt.Sprint(obs.Err), "stream_len": len(stream)}
 				}
 				if obs.Spin {
